@@ -228,7 +228,7 @@ func runScratch(c *sCase) *scratchRun {
 			res.Start = observeScratch(adb, uni, hashes[i]) // immediately after Prepare
 			res.Ran = true
 			warm(i)
-			ctx := vmContext(big.NewInt(123), big.NewInt(1000000000))
+			ctx := vmContext(big.NewInt(123), big.NewInt(1000000000), big.NewInt(1700000000))
 			evm := vm.NewEVMWithNFT(ctx, adb, adb)
 			ret, _, retLogs, cerr := evm.Call(vm.AccountRef(originAddr), dispAddr(c.Txs[i].Disp), callWord(scriptAddr(i)), 200000000, new(big.Int))
 			res.End = observeScratch(adb, uni, hashes[i])
